@@ -20,5 +20,6 @@ RULES = [
     ("C07.replace", lambda c, r: lfht.rule_replace(c, r, "C07.replace")),
     ("C07.emptywalk", lambda c, r: lfht.rule_emptywalk(c, r, "C07.emptywalk")),
     ("C07.partition", lambda c, r: c09.rule_partition(c, r, "C07.partition")),
+    ("C07.mmapargs", lambda c, r: lfht.rule_mmapargs(c, r, "C07.mmapargs")),
 ]
 FLOORS = {}
